@@ -16,5 +16,5 @@ for id in "$@"; do
 done
 git -C /repo checkout -- .
 # the generated model files followed the seeded source: regenerate them from the restored tree
-for g in gen_ucode.py gen_consts.py gen_grammar.py gen_c01.py gen_muldiv.py; do python3 tools/$g > /dev/null; done
+for g in gen_ucode.py gen_consts.py gen_grammar.py gen_c01.py gen_muldiv.py gen_c03.py; do python3 tools/$g > /dev/null; done
 git -C /repo status --short | head
